@@ -25,6 +25,8 @@ PID = "C20"
 def units(tier):
     u = [("eos", n) for n in ("vinet", "birch_murnaghan", "murnaghan")]
     u += [("qha", 1, True, None), ("qha", 2, True, None), ("qha", 1, False, None), ("qha", 1, True, 2), ("qha", 2, True, 3)]
+    if tier == "thorough":
+        u += [("qha", e, p, t) for e in (1, 2) for p in (True, False) for t in (None, 2, 3) if ("qha", e, p, t) not in u]
     return u
 
 
